@@ -20,6 +20,7 @@ import itertools
 import json
 import random
 
+from bcheck import history
 from bcheck.common import Collector, args, run_sharded, call
 from bcheck import ref_c20 as R
 
@@ -866,6 +867,8 @@ def check_input(cx, inp):
 def main():
     a = args("C20")
     col = Collector("C20", a.tier, a.seed)
+    if a.replay and history.replayed(a, col, "C20"):
+        return
     if a.replay:
         rp = json.load(open(a.replay))
         cx = Ctx(col)
@@ -944,6 +947,7 @@ def main():
         col.notes.append({"exceptions_not_flagged (statement does not promise totality)":
                           dict((k, {"count": e[0], "first_input": e[1], "message": e[2]}) for k, e in excs.items())})
     col.notes.append({"clauses": CLAUSES})
+    history.run(col, "C20", a.tier == "quick")
     col.dump(a.out)
 
 
